@@ -12,6 +12,7 @@ CONSTANTS
   LoseDB = TRUE
   HeaderHasPrev = FALSE
   FixedF4 = "v2"
+  Mode = "pp"
 INIT Init
 NEXT Next
 VIEW view
